@@ -380,11 +380,32 @@ func NewTNode(o NodeOpts) (*TNode, error) {
 
 // SetLog replaces the content of the node's log.
 func (tn *TNode) SetLog(l LogSt) error {
+	setLogCalls++
+	if l.Base > 0 && setLogCalls%2 == 0 {
+		// every second compacted pre-state is produced the way a local snapshot produces it: the entry at
+		// the boundary is appended and the real Compact cuts the log there (the other half is produced the
+		// way an installed snapshot does, by DiscardEntries). What the log answers afterwards (base, base
+		// term, entries) must be the same; every engine that starts from a LogSt thereby also exercises Compact.
+		pt := l.BaseTerm
+		if l.Base == 1 {
+			pt = 0
+		}
+		if err := tn.RawLog.DiscardEntries(l.Base-1, pt); err != nil {
+			return err
+		}
+		ents := append([]*raft.LogEntry{{Index: l.Base, Term: l.BaseTerm, Data: []byte("boundary"), EntryType: raft.OperationEntry}}, EntsToRaft(l.Ents)...)
+		if err := tn.RawLog.AppendEntries(ents); err != nil {
+			return err
+		}
+		return tn.RawLog.Compact(l.Base)
+	}
 	if err := tn.RawLog.DiscardEntries(l.Base, l.BaseTerm); err != nil {
 		return err
 	}
 	return tn.RawLog.AppendEntries(EntsToRaft(l.Ents))
 }
+
+var setLogCalls int
 
 // GetLog reads the log back through the Log interface.
 func (tn *TNode) GetLog() LogSt {
